@@ -43,6 +43,23 @@ IGNORE_INVALID = ["Maze", "PacMan", "Sokoban", "SlidingTilePuzzle", "Game2048", 
                   "Connector", "RobotWarehouse", "LevelBasedForaging"]
 
 
+# hand-made 11x13 ASCII map (format of AsciiGenerator: X wall, G ghost spawn, P player, O power-up, T ghost
+# initial target, S scatter target; the open row 5 is a wrap-around tunnel like the default map's row 14)
+PACMAN_SMALL_MAZE = [
+    "XXXXXXXXXXXXX",
+    "XS    T    SX",
+    "X XXX X XXX X",
+    "XO   G G   OX",
+    "X XXX X XXX X",
+    "    T P T    ",
+    "X XXX X XXX X",
+    "XO   G G   OX",
+    "X XXX X XXX X",
+    "XS    T    SX",
+    "XXXXXXXXXXXXX",
+]
+
+
 def _E():
     import jumanji.environments as E
 
@@ -234,7 +251,7 @@ def _menus():
     # ---- routing
     from jumanji.environments.routing.cleaner.generator import RandomGenerator as CLGen
     for r, c, a, t in ((5, 5, 1, None), (3, 7, 1, 7), (5, 11, 2, 3), (11, 5, 3, 2), (10, 10, 3, None),
-                       (7, 3, 2, 1), (10, 10, 3, 20)):
+                       (7, 3, 2, 1), (10, 10, 3, 20), (3, 3, 2, None), (5, 11, 2, None)):
         add("Cleaner", f"r{r}c{c}a{a}t{t}",
             lambda r=r, c=c, a=a, t=t, time_limit="dflt", **k: E.Cleaner(
                 generator=CLGen(num_rows=r, num_cols=c, num_agents=a),
@@ -310,6 +327,11 @@ def _menus():
     for t in (None, 7, 3, 1, 40):
         add("PacMan", f"t{t}", lambda t=t, time_limit="dflt", **k: E.PacMan(
             time_limit=t if time_limit == "dflt" else time_limit), time_limit=t if t is not None else 1000)
+    from jumanji.environments.routing.pac_man.generator import AsciiGenerator
+    for t in (30, 200):
+        add("PacMan", f"small{t}", lambda t=t, time_limit="dflt", **k: E.PacMan(
+            generator=AsciiGenerator(PACMAN_SMALL_MAZE), time_limit=t if time_limit == "dflt" else time_limit),
+            time_limit=t, maze="small")
     from jumanji.environments.routing.robot_warehouse.generator import RandomGenerator as RWGen
     for sr, sc, ch, a, sens, q, t in ((1, 3, 2, 1, 1, 1, 7), (1, 3, 3, 2, 1, 2, 500), (1, 3, 3, 3, 2, 2, 3),
                                       (2, 3, 8, 4, 1, 8, 500), (1, 3, 3, 2, 1, 2, 2), (2, 3, 2, 2, 2, 2, 1),
@@ -327,7 +349,7 @@ def _menus():
             rows=r, cols=c, time_limit=t)
     from jumanji.environments.routing.sokoban import generator as skg
     for gen, t in (("toy", 120), ("simple", 7), ("random", 3), ("random", 120), ("toy", 2), ("simple", 1),
-                   ("random", 30)):
+                   ("random", 30), ("simple", 120)):
         def sk(gen=gen, t=t, time_limit=None, **k):
             g = {"toy": skg.ToyGenerator, "simple": skg.SimpleSolveGenerator,
                  "random": _sokoban_random_generator}[gen]()
@@ -358,11 +380,11 @@ QUICK = {
     "RubiksCube": ["n2s1t3", "n3s7t7"], "SlidingTilePuzzle": ["g3m50t7d", "g2m1t3s"],
     "Sudoku": ["veryeasy", "dummy"], "BinPack": ["r10e20s2", "r5e10s1o6"], "FlatPack": ["r2c3b", "r3c2c"],
     "JobShop": ["j3m2o3d2", "j5m4o4d4"], "Knapsack": ["n10s", "n50d"], "Tetris": ["r6c5t7", "r10c10t400"],
-    "Cleaner": ["r3c7a1t7", "r5c11a2t3", "r10c10a3tNone"], "Connector": ["g5a2t7rw", "g6a3t50rw"],
+    "Cleaner": ["r3c7a1t7", "r5c11a2tNone", "r3c3a2tNone"], "Connector": ["g5a2t7rw", "g6a3t50rw"],
     "CVRP": ["n5s", "n20d"], "LevelBasedForaging": ["g6a2f2v2l2cVNp0t100", "g8a3f3v3l3nGRp5t100", "g5a1f1v5l2nVNp0t7"],
     "Maze": ["r4c7tNone", "r5c5t7"], "MMST": ["n12e18a2k3t7", "n12e18a3k2t30"], "MultiCVRP": ["c6v2d", "c6v3s"],
-    "PacMan": ["t7", "tNone"], "RobotWarehouse": ["s1x3h3a2r1q2t500", "s1x3h2a1r1q1t7"],
-    "Snake": ["r6c4t7", "r3c3t4000"], "Sokoban": ["simplet7", "randomt120"], "TSP": ["n5d", "n3d"],
+    "PacMan": ["t40", "small200"], "RobotWarehouse": ["s1x3h3a2r1q2t500", "s1x3h2a1r1q1t7"],
+    "Snake": ["r6c4t7", "r3c3t4000"], "Sokoban": ["simplet120", "randomt120"], "TSP": ["n5d", "n3d"],
 }
 
 
